@@ -73,6 +73,11 @@ class Leaf:
                 args.append('callback = |lex| (cb%d(lex) + 1) * 2 / 2 - 1' % self.cb)
             elif form == 4 and self.cb == 1:
                 args.append('callback = |lex| (!cb%d(lex)) == false' % self.cb)
+            elif form == 7 and self.cb == 27:
+                # a closure that hands the lexer to a function and goes on with what it returned (round 28)
+                args.append('callback = |lex| cb27i(lex) == false')
+            elif form == 7 and self.cb == 28:
+                args.append('callback = |lex| cb28i(lex).filter(|_| false)')
             elif form == 6 and self.cb in (9, 12):
                 # inline closure that leaves early with `?` (D17: the body is pasted into a function of the generated code)
                 args.append('callback = |lex| { let v = cb%d(lex)?; Some(v) }' % self.cb)
@@ -428,6 +433,12 @@ def fixed_corpus():
     # configured: the error callback has to see the span of the rejected match
     out.append(Def([L('regex', '[0-9]+', cb=25), L('regex', '[0-9]+\\.[0-9]+', cb=1), L('regex', '[a-z]+', cb=26), L('regex', '[a-z]+-=', cb=9), L('regex', '[A-Z]+y?', cb=12, value=True),
                     L('skip', ' +')], errcb=True, origin='fixed:errcb-fallback'))
+    # inline closures that begin with a call handing over the lexer and go on: `|lex| f(lex) == false`, `|lex| f(lex).filter(..)`
+    dd = Def([L('regex', 'a+', cb=27), L('regex', 'b+', cb=28), L('regex', 'c+', cb=1), L('regex', '[0-9]+'), L('skip', ' +')], errcb=True, origin='fixed:closure-forward-tail')
+    dd.leaves[0].cb_form = 7
+    dd.leaves[1].cb_form = 7
+    dd.leaves[2].cb_form = 3
+    out.append(dd)
     # inline closures that leave early (`return`, `?`): D17
     dd = Def([L('regex', 'a+', cb=11, value=True), L('regex', 'b+', cb=1), L('regex', 'c+', cb=9), L('regex', 'd+', cb=12, value=True), L('regex', 'e+', cb=3), L('skip', ' +')],
              origin='fixed:closure-early-exit')
